@@ -1526,6 +1526,12 @@ class LiteralForms(ast.NodeTransformer):
     def visit_Expr(self, node: ast.Expr):
         self.generic_visit(node)
         c = node.value
+        # D.setdefault(k, v) as a statement, v free of effects: if k not in D: D[k] = v
+        if isinstance(c, ast.Call) and isinstance(c.func, ast.Attribute) and c.func.attr == "setdefault" and len(c.args) == 2 and not c.keywords and isinstance(c.func.value, ast.Name) and _simple(c.args[0]) and (_simple(c.args[1]) or (isinstance(c.args[1], ast.Call) and isinstance(c.args[1].func, ast.Name) and c.args[1].func.id == "len" and len(c.args[1].args) == 1 and _simple(c.args[1].args[0]))):
+            self.count += 1
+            D, k, v = c.func.value, c.args[0], c.args[1]
+            new = ast.If(test=ast.Compare(left=clone_ast(k), ops=[ast.NotIn()], comparators=[clone_ast(D)]), body=[ast.Assign(targets=[ast.Subscript(value=clone_ast(D), slice=clone_ast(k), ctx=ast.Store())], value=v)], orelse=[])
+            return ast.copy_location(new, node)
         if isinstance(c, ast.Call) and isinstance(c.func, ast.Name) and c.func.id == "setattr" and len(c.args) == 3 and not c.keywords and isinstance(c.args[1], ast.Constant) and isinstance(c.args[1].value, str) and c.args[1].value.isidentifier():
             self.count += 1
             new = ast.Assign(targets=[ast.Attribute(value=c.args[0], attr=c.args[1].value, ctx=ast.Store())], value=c.args[2])
